@@ -1,0 +1,15 @@
+//go:build verif
+
+package filesystem
+
+// C12 (a scan describes the filesystem exactly - symbolic link targets):
+// readlinkat(2) truncates silently when the buffer is too small, so a result
+// that fills the buffer completely may be incomplete. ReadSymbolicLink returns
+// a target only when the count reported by the very call that filled the
+// buffer is strictly smaller than that buffer; otherwise it retries with a
+// larger one. The returned string is buffer[:count] of that call.
+//
+//@ func (*Directory).ReadSymbolicLink
+//@   at call readlinkatRetryingOnEINTR let rlcount = result0
+//@   at call readlinkatRetryingOnEINTR let rlsize = len(arg2)
+//@   ensures[complete] result1 == nil ==> 0 <= rlcount && rlcount < rlsize && len(result0) == rlcount
